@@ -4,7 +4,7 @@ d=$1; shift
 cd /repo || exit 2
 if ! git diff --quiet; then echo "repo dirty"; exit 2; fi
 if ! git apply "$d" 2>/dev/null; then
-  if ! git apply --3way "$d" 2>/dev/null; then echo "APPLY-FAILED $d"; git checkout -- . ; exit 3; fi
+  if ! git apply --3way "$d" 2>/dev/null; then echo "APPLY-FAILED $d"; git reset -q --hard HEAD; exit 3; fi
   git reset -q
 fi
 for p in "$@"; do
